@@ -3,6 +3,10 @@ import Poulpy.Lemmas.NegMul
 import Poulpy.Lemmas.CnvSum
 import Poulpy.Lemmas.Ntt120Top
 import Poulpy.Lemmas.NttSum
+import Poulpy.Lemmas.NttAvxBridge
+import Poulpy.Lemmas.Fft64Instance
+import Poulpy.Lemmas.Fft64Vmp
+import Poulpy.Lemmas.F64Mono
 
 /-!
 # C07 — DFT-domain products equal exact negacyclic (bivariate) convolution
@@ -648,5 +652,657 @@ example : ∃ t, nttTableK primes30 0 65536 = .ok t :=
   (ntt120_tables_never_panic primes30 primes30_nttGood 0 16 (by decide) (by decide) (by decide)).1
 
 end NTT120Transform
+
+/-! ## The NTT120 back end at HAL level (`convolution.rs`, `vmp.rs`, `vec_znx_dft.rs` of `reference/ntt120`)
+
+Whole HAL operations composed from the tied kernels (`Model/Ntt120Hal.lean`) against the exact-integer HAL
+specification (`Model/HalSpec.lean`), for every `n = 2^j`, `1 ≤ j ≤ 16`:
+
+* ranges: every forward-transform output is below `2·Q_SHIFTED`, every inverse output below `Q_SHIFTED`; the forward
+  bound reaches `2^63` exactly when `log2 n ≡ 1 (mod 5)` — the sizes at which a *lazy* 64-bit sum of two outputs wraps;
+* convolution: `cnv_prepare_left/right/self` (+ top-limb mask), `cnv_apply_dft`, `cnv_pairwise_apply_dft` (`i ≠ j`, canonical
+  pack sums), `cnv_by_const_apply`, then `idft`: equal `Hal.cnvApplyCol` / `cnvPrepareCol` / `colAdd` when the result fits `(Q−1)/2`;
+* vmp: `vec_znx_dft_apply`, `vmp_prepare`, `vmp_apply_dft_to_dft(limb_offset)` (sub-shapes, zero fill, paired / odd columns,
+  1-col / 2-cols kernels, prepared layout), then `idft`: equal `Hal.vmpFlat`;
+* arbitrary compositions of DFT-domain operations (`DExpr`): the stored lanes represent the specified polynomial, every
+  residue stays below `2·Q_SHIFTED`, the AVX2 lazy kernels store the same bits;
+* the remaining kernels: `add_ccc`, `baa`, `bbb::<Primes31>`, `fill_reduction_meta(64)`, the fused CRT of `idft_apply_consume`;
+* bridge to C10: each HAL step of NTT120Avx computes the reference lanes on every state that can occur. -/
+
+section NTT120Hal
+open Ntt120 NttMath
+
+/-- **ranges of the transforms** (Primes30, all 16 sizes, all four lanes): `ntt_ref` outputs `< 2·(Q[k] << 33)` and `intt_ref`
+outputs `< Q[k] << 33`, for EVERY `u64` input; and the forward bound is at least `2^63` iff `log2 n ≡ 1 (mod 5)` -/
+theorem ntt120_transform_ranges (k j : Nat) (hk : k < 4) (hj1 : 1 ≤ j) (hj : j ≤ 16) (t ti : TableK)
+    (ht : nttTableK primes30 k (2 ^ j) = .ok t) (hti : inttTableK primes30 k (2 ^ j) = .ok ti)
+    (v : List Nat) (hv : v.length = 2 ^ j) (hu : ∀ x ∈ v, x ≤ 2 ^ 64 - 1) :
+    (∀ x ∈ nttK t v, x < 2 * (primes30.qs.getD k 1 * 2 ^ 33)) ∧ (∀ x ∈ inttK ti v, x < primes30.qs.getD k 1 * 2 ^ 33) ∧
+    (2 ^ 63 ≤ fwdFinal primes30 k j ↔ j % 5 = 1) := by
+  have g := primes30_nttGood k hk
+  obtain ⟨r1, r2⟩ := primes30_transform_ranges k hk j (by omega) hj1
+  refine ⟨fun x hx => ?_, fun x hx => ?_, primes30_fwd_bound_fills_64_bits k hk j (by omega) hj1⟩
+  · have := nttK_real_bound primes30 k j g.1 hj1 hj t ht v hv hu x hx; omega
+  · have := inttK_real_bound primes30 k j g.1 g.2 hj1 hj ti hti v hv hu x hx; omega
+
+/-- **the seeded lazy pack really wraps**: `lazyWitness` is slot 39 of prime 0 of the forward transform (`n = 64`) of the constant
+limb `i64::MAX`; it exceeds `2^63`; the canonical pack of `(w, w)` is congruent to `2w`, the lazy 64-bit sum `(w + w) mod 2^64`
+(split into its two `u32` halves) is not — `cnv_pairwise_apply_dft` with the lazy pack is wrong at `log2 n ≡ 1 (mod 5)` -/
+theorem ntt120_lazy_pairwise_pack_wraps :
+    (lazyWitness = 14134845492789138207 ∧ 2 ^ 63 ≤ lazyWitness) ∧
+    ¬ ((pairwisePackLeftLazyK lazyWitness lazyWitness).1 + 2 ^ 32 * (pairwisePackLeftLazyK lazyWitness lazyWitness).2
+        ≡ lazyWitness + lazyWitness [MOD primes30.q0]) ∧
+    (pairwisePackLeftK primes30.q0 lazyWitness lazyWitness).1 ≡ lazyWitness + lazyWitness [MOD primes30.q0] :=
+  ⟨lazyWitness_value, lazy_pairwise_pack_wraps.1, lazy_pairwise_pack_wraps.2⟩
+
+/-- **`ntt120_cnv_matches_spec`**: `cnv_prepare_left(a, mask_a)`, `cnv_prepare_right(b, mask_b)`, `cnv_apply_dft(cnv_offset)`,
+`vec_znx_idft_apply` on the NTT120 back end compute exactly `Hal.cnvApplyCol` of the prepared columns (the bivariate negacyclic
+convolution truncated at `cnv_offset`, top limbs masked, zero fill), whenever the specified result fits `(Q−1)/2` -/
+theorem ntt120_cnv_matches_spec (P : PrimeSet) (g : P.Good) (ng : P.NttGood) (j : Nat) (hj1 : 1 ≤ j) (hj : j ≤ 16)
+    (rs off la lb : Nat) (mA mB : Int) (a b : Col) (ha : ColOK j a) (hb : ColOK j b) (hla : 0 < la) (hlb : 0 < lb) (hsz : la < 10000)
+    (hbound : ∀ l, l < rs → ∀ i, i < 2 ^ j →
+      -(((bigQ P : Int) - 1) / 2) ≤ ((cnvApplyCol (2 ^ j) rs off (cnvPrepareCol (2 ^ j) la mA a) (cnvPrepareCol (2 ^ j) lb mB b)).getD l (zeroP (2 ^ j))).getD i 0 ∧
+      ((cnvApplyCol (2 ^ j) rs off (cnvPrepareCol (2 ^ j) la mA a) (cnvPrepareCol (2 ^ j) lb mB b)).getD l (zeroP (2 ^ j))).getD i 0 ≤ ((bigQ P : Int) - 1) / 2) :
+    cnvPipeline P (2 ^ j) rs off la lb mA mB a b =
+      cnvApplyCol (2 ^ j) rs off (cnvPrepareCol (2 ^ j) la mA a) (cnvPrepareCol (2 ^ j) lb mB b) :=
+  cnvPipeline_exact P g ng j hj1 hj rs off la lb mA mB a b ha hb hla hlb hsz hbound
+
+/-- **`cnv_pairwise_apply_dft`, `i ≠ j`** (canonical pack sums `(a_i%q + a_j%q) mod q`, `u32` sums on the right): the result is
+`cnvApplyCol` of the column sums `(a_i + a_j)`, `(b_i + b_j)` of the prepared columns -/
+theorem ntt120_cnv_pairwise_matches_spec (P : PrimeSet) (g : P.Good) (ng : P.NttGood) (j : Nat) (hj1 : 1 ≤ j) (hj : j ≤ 16)
+    (rs off la lb : Nat) (mA mB : Int) (ai aj bi bj : Col) (hai : ColOK j ai) (haj : ColOK j aj) (hbi : ColOK j bi) (hbj : ColOK j bj)
+    (hla : 0 < la) (hlb : 0 < lb) (hsz : la < 10000)
+    (hbound : ∀ l, l < rs → ∀ i, i < 2 ^ j →
+      -(((bigQ P : Int) - 1) / 2) ≤ ((cnvApplyCol (2 ^ j) rs off
+          (colAdd (2 ^ j) (cnvPrepareCol (2 ^ j) la mA ai) (cnvPrepareCol (2 ^ j) la mA aj))
+          (colAdd (2 ^ j) (cnvPrepareCol (2 ^ j) lb mB bi) (cnvPrepareCol (2 ^ j) lb mB bj))).getD l (zeroP (2 ^ j))).getD i 0 ∧
+      ((cnvApplyCol (2 ^ j) rs off
+          (colAdd (2 ^ j) (cnvPrepareCol (2 ^ j) la mA ai) (cnvPrepareCol (2 ^ j) la mA aj))
+          (colAdd (2 ^ j) (cnvPrepareCol (2 ^ j) lb mB bi) (cnvPrepareCol (2 ^ j) lb mB bj))).getD l (zeroP (2 ^ j))).getD i 0 ≤ ((bigQ P : Int) - 1) / 2) :
+    cnvPairwisePipeline P (2 ^ j) rs off la lb mA mB ai aj bi bj =
+      cnvApplyCol (2 ^ j) rs off (colAdd (2 ^ j) (cnvPrepareCol (2 ^ j) la mA ai) (cnvPrepareCol (2 ^ j) la mA aj))
+        (colAdd (2 ^ j) (cnvPrepareCol (2 ^ j) lb mB bi) (cnvPrepareCol (2 ^ j) lb mB bj)) :=
+  cnvPairwisePipeline_exact P g ng j hj1 hj rs off la lb mA mB ai aj bi bj hai haj hbi hbj hla hlb hsz hbound
+
+/-- **`cnv_by_const_apply`** (coefficient domain, `i128` accumulators): exact while no accumulator leaves the `i128` range -/
+theorem ntt120_cnv_by_const_exact (n rs off : Nat) (a : Col) (b : List Int)
+    (h : ∀ l ∈ cnvByConstCol id n rs off a b, ∀ x ∈ l, -(2 ^ 127) ≤ x ∧ x < 2 ^ 127) :
+    cnvByConstCol w128 n rs off a b = cnvByConstCol id n rs off a b := cnvByConst_exact n rs off a b h
+
+/-- **`vec_znx_dft_apply(step, offset)`**: every stored lane represents (is the negacyclic transform modulo `Q[k]` of) the limb
+`Hal.dftApplyCol` selects — input limb `offset + l·step` or zero -/
+theorem ntt120_dft_apply_matches_spec (P : PrimeSet) (ng : P.NttGood) (k j : Nat) (hk : k < 4) (hj1 : 1 ≤ j) (hj : j ≤ 16)
+    (step offset rs : Nat) (a : Col) (ha : ColOK j a) (l : Nat) (hl : l < rs) :
+    Rep P k j ((dftApplyLaneK (P.qs.getD k 1) (2 ^ j) (realNtt P (2 ^ j) k) step offset rs a).getD l [])
+      ((dftApplyCol (2 ^ j) step offset rs a).getD l (zeroP (2 ^ j))) :=
+  dftApplyLane_rep P k j (laneCtx_of P ng k j hk hj1 hj) step offset rs a ha l hl
+
+/-- **`ntt120_vmp_matches_spec` for the full signature**: `vec_znx_dft_apply` on the input limbs, `vmp_prepare` on the matrix,
+`vmp_apply_dft_to_dft(res, a, pmat, limb_offset)`, `vec_znx_idft_apply` compute exactly `Hal.vmpFlat` — any `limb_offset`,
+`row_max = min(rows·cols_in, |a|)`, `col_max = min(cols_out·size, |res| + limb_offset·cols_out)`, zero fill beyond, paired and
+odd columns — whenever the specified result fits `(Q−1)/2` -/
+theorem ntt120_vmp_full_matches_spec (P : PrimeSet) (g : P.Good) (ng : P.NttGood) (j : Nat) (hj1 : 1 ≤ j) (hj : j ≤ 16)
+    (aFlat : List Poly) (m : PMat) (limbOffset resLen : Nat) (ha : ColOK j aFlat) (hm : PMatOK j m)
+    (hrow : min (m.colsIn * m.rows) aFlat.length < 10000)
+    (hbound : ∀ r, r < resLen → ∀ i, i < 2 ^ j →
+      -(((bigQ P : Int) - 1) / 2) ≤ ((vmpFlat (2 ^ j) aFlat m limbOffset resLen).getD r (zeroP (2 ^ j))).getD i 0 ∧
+      ((vmpFlat (2 ^ j) aFlat m limbOffset resLen).getD r (zeroP (2 ^ j))).getD i 0 ≤ ((bigQ P : Int) - 1) / 2) :
+    vmpFullPipeline P (2 ^ j) aFlat m limbOffset resLen = vmpFlat (2 ^ j) aFlat m limbOffset resLen :=
+  vmpFullPipeline_exact P g ng j hj1 hj aFlat m limbOffset resLen ha hm hrow hbound
+
+/-- the same on ARBITRARY DFT-domain input (any `u64` residues representing `aFlat`, e.g. results of earlier lazy operations):
+every output lane represents the `vmpFlat` limb and every stored residue is at most `2^63 + 2^47` -/
+theorem ntt120_vmp_any_input (P : PrimeSet) (ng : P.NttGood) (k j : Nat) (hk : k < 4) (hj1 : 1 ≤ j) (hj : j ≤ 16)
+    (A : List (List Nat)) (aFlat : List Poly) (M : Nat → Nat → List (Nat × Nat)) (m : PMat) (limbOffset resLen : Nat)
+    (hA : A.length = aFlat.length) (hrow : min (m.colsIn * m.rows) aFlat.length < 10000)
+    (hAr : ∀ i (hi : i < aFlat.length), Rep P k j (A.getD i []) (aFlat[i]))
+    (hM : ∀ i cc, i < min (m.colsIn * m.rows) aFlat.length → cc < m.colsOut * m.size → PrepRep P k j (M i cc) (m.entry i cc))
+    (r : Nat) (hr : r < resLen) :
+    Rep P k j
+      ((vmpApplyLaneK (P.qs.getD k 1) (bbcH P) (2 ^ j) A M (m.colsIn * m.rows) (m.colsOut * m.size) (limbOffset * m.colsOut) resLen).getD r [])
+      ((vmpFlat (2 ^ j) aFlat m limbOffset resLen).getD r (zeroP (2 ^ j))) ∧
+    ∀ x ∈ (vmpApplyLaneK (P.qs.getD k 1) (bbcH P) (2 ^ j) A M (m.colsIn * m.rows) (m.colsOut * m.size) (limbOffset * m.colsOut) resLen).getD r [],
+      x ≤ 2 ^ 63 + 2 ^ 47 :=
+  vmpApplyLane_rep P k j (laneCtx_of P ng k j hk hj1 hj) A aFlat M m limbOffset resLen hA hrow hAr hM r hr
+
+/-- **the kernel calls of `vmp_apply_dft_to_dft_core`** (one block iteration, `limb_offset < col_max ≤ ncols`): the
+`save_blk` calls write every active result column exactly once, in increasing order (`vmpWrites = range.map vmpSource`: even /
+odd `limb_offset`, even / odd `col_max`, 2-column kernel halves, 1-column kernel for the last column of an odd matrix), and the
+block each call reads for row `i` is exactly the slot where `vmp_prepare` stored entry `(i, r + limb_offset)` -/
+theorem ntt120_vmp_kernel_calls (nrows ncols L colMax : Nat) (hL : L < colMax) (hcm : colMax ≤ ncols) :
+    vmpWrites L colMax ncols = (List.range (colMax - L)).map (vmpSource L colMax ncols) ∧
+    ∀ r blk i, r < colMax - L →
+      vmpReadAddr nrows ncols (vmpSource L colMax ncols r) blk i = vmpSlotAddr nrows ncols i (r + L) blk :=
+  ⟨vmpWrites_eq L colMax ncols hL, fun r blk i hr => vmpReadAddr_eq_slot nrows ncols L colMax r blk i hL hcm hr⟩
+
+/-- **the block-interleaved layout of `vmp_prepare`**: slots are 16-word aligned, inside the `n_blks·nrows·ncols·16`-word buffer,
+and distinct `(row, col, blk)` get distinct (hence disjoint) slots — no entry overwrites another -/
+theorem ntt120_vmp_prepared_layout (nrows ncols nblks row col blk row' col' blk' : Nat) (hrow : row < nrows) (hcol : col < ncols)
+    (hblk : blk < nblks) (hrow' : row' < nrows) (hcol' : col' < ncols) :
+    vmpSlotAddr nrows ncols row col blk % 16 = 0 ∧
+    vmpSlotAddr nrows ncols row col blk + 16 ≤ nblks * (nrows * ncols * 16) ∧
+    (vmpSlotAddr nrows ncols row col blk = vmpSlotAddr nrows ncols row' col' blk' → row = row' ∧ col = col' ∧ blk = blk') :=
+  vmpSlotAddr_inj_bound nrows ncols nblks row col blk row' col' blk' hrow hcol hblk hrow' hcol'
+
+/-- **the lazy range invariant over arbitrary operation sequences** (Primes30): whatever finite sequence of zero fills,
+`vec_znx_dft_apply`s, `bbc` products and lazy `add / sub / negate`s produced a stored residue (`Reach`), it is below
+`2·(Q[k] << 33)` — with the reference kernels and with the AVX2 kernels — and the two back ends reach the same values.  This
+closes the observation that the AVX2 lazy add is only correct for `x < 2·Q_SHIFTED`: the HAL never leaves that range. -/
+theorem ntt120_lazy_range_invariant (k j : Nat) (hk : k < 4) (hj1 : 1 ≤ j) (hj : j ≤ 16) (avx : Bool) (x : Nat)
+    (h : Reach primes30 k j avx x) :
+    x < 2 * (primes30.qs.getD k 1 * 2 ^ 33) ∧ (Reach primes30 k j true x ↔ Reach primes30 k j false x) :=
+  ⟨reach_lt primes30 k j avx (primes30_reachFacts k j hk hj1 hj) x h, reach_avx_iff primes30 k j (primes30_reachFacts k j hk hj1 hj) x⟩
+
+/-- **any composition of DFT-domain HAL operations** (`DExpr`: zero, `dft_apply`, one-row product with a prepared polynomial,
+lazy add / sub / negate, nested to any depth; Primes30): the stored lane represents the specified polynomial, every residue is
+below `2·(Q[k] << 33)`, and the AVX2 lazy kernels store exactly the bits of the reference kernels -/
+theorem ntt120_hal_compositions (k j : Nat) (hk : k < 4) (hj1 : 1 ≤ j) (hj : j ≤ 16) (e : DExpr) (hw : e.WF j) :
+    Rep primes30 k j (e.lane primes30 k (2 ^ j) false) (e.spec (2 ^ j)) ∧
+    e.lane primes30 k (2 ^ j) true = e.lane primes30 k (2 ^ j) false ∧
+    ∀ avx, ∀ x ∈ e.lane primes30 k (2 ^ j) avx, x < 2 * (primes30.qs.getD k 1 * 2 ^ 33) :=
+  ⟨(dexpr_sound primes30 k j (laneCtx_of primes30 primes30_nttGood k j hk hj1 hj) (primes30_reachFacts k j hk hj1 hj) e hw).1,
+   dexpr_avx_eq_ref primes30 k j (laneCtx_of primes30 primes30_nttGood k j hk hj1 hj) (primes30_reachFacts k j hk hj1 hj) e hw,
+   fun avx => dexpr_range primes30 k j (laneCtx_of primes30 primes30_nttGood k j hk hj1 hj) (primes30_reachFacts k j hk hj1 hj) e hw avx⟩
+
+/-! ### the remaining kernels -/
+
+/-- `add_ccc_ref`: the canonical sum modulo the prime of two `u32` words -/
+theorem ntt120_add_ccc (q x y : Nat) (hq0 : 0 < q) (hq : q < 2 ^ 32) (hx : x < 2 ^ 32) (hy : y < 2 ^ 32) :
+    addCccK q x y = (x + y) % q ∧ addCccK q x y < q := addCccK_spec q x y hq0 hq hx hy
+
+/-- `vec_mat1col_product_baa_ref` with the crate's `BaaMeta`, Primes29/30/31: no 64-bit wrap for fewer than 10 000 rows of `u32`
+operands, result congruent to the dot product -/
+theorem ntt120_baa_no_overflow (P : PrimeSet) (hP : P ∈ [primes29, primes30, primes31]) (k : Nat) (hk : k < 4) (ts : List (Nat × Nat))
+    (hu : ∀ t ∈ ts, t.1 < 2 ^ 32 ∧ t.2 < 2 ^ 32) (hell : ts.length < 10000) :
+    baaK (baaMeta P).h ((baaMeta P).hPowRed.getD k 0) ts ≡ dotA ts [MOD P.qs.getD k 1] := baaOut_spec P hP k hk ts hu hell
+
+/-- `vec_mat1col_product_bbb_ref::<Primes31>`: correct as well (the constants only fit `2^31`, the split point 24 leaves room) -/
+theorem ntt120_bbb_primes31 (k : Nat) (hk : k < 4) (ell : Nat) (x y : Array Nat) (hell : ell < 10000)
+    (hx : ∀ i, x.getD i 0 < 2 ^ 64) (hy : ∀ i, y.getD i 0 < 2 ^ 64) :
+    bbbOutK (bbbMeta primes31) ell k x y ≡ dot2 ((List.range ell).map (fun i => (x.getD (4 * i + k) 0, y.getD (4 * i + k) 0))) [MOD primes31.qs.getD k 1] :=
+  bbbOutK_spec31 k hk ell x y hell hx hy
+
+/-- `fill_reduction_meta(64)` for the three prime sets: the chosen split point and constants make `modq_red` map every `u64` to
+a congruent value below `2^bs_after ≤ 2^48` -/
+theorem ntt120_fill_reduction_meta (P : PrimeSet) (hP : P ∈ [primes29, primes30, primes31]) (k : Nat) (hk : k < 4) (x : Nat) (hx : x < 2 ^ 64) :
+    modqRed x (fillReductionMeta P 64).h (fillReductionMeta P 64).mask ((fillReductionMeta P 64).cst.getD k 0) ≡ x [MOD P.qs.getD k 1] ∧
+    modqRed x (fillReductionMeta P 64).h (fillReductionMeta P 64).mask ((fillReductionMeta P 64).cst.getD k 0) < 2 ^ (fillReductionMeta P 64).bsAfter ∧
+    (fillReductionMeta P 64).bsAfter ≤ 48 := modqRed_meta_spec P hP k hk x hx
+
+/-- **`vec_znx_idft_apply_consume` = `vec_znx_idft_apply`** on one coefficient: the fused per-prime Barrett CRT digits, the `u128`
+sum (no wrap), the table reduction (index ≤ 3, no panic) and the symmetric lift of `compact_all_blocks_scalar` equal
+`b_to_znx128_ref` for every q120b word in the inverse transform's output range -/
+theorem ntt120_idft_consume_eq_apply (x0 x1 x2 x3 : Nat) (h0 : x0 < primes30.q0 * 2 ^ 33) (h1 : x1 < primes30.q1 * 2 ^ 33)
+    (h2 : x2 < primes30.q2 * 2 ^ 33) (h3 : x3 < primes30.q3 * 2 ^ 33) :
+    compactCrt primes30 [x0, x1, x2, x3] = .ok (bToZnx128Core primes30 x0 x1 x2 x3) :=
+  compactCrt_eq_bToZnx128 x0 x1 x2 x3 h0 h1 h2 h3
+
+/-! ### bridge to C10: every `ntt120_*_matches_spec` holds for NTT120Avx
+
+The theorems above are about the reference lane functions (`bFromU64K`, `nttK`, `cPairK`/`cFromBK`, `packLeftK`, `bbcK`,
+`addBbbK`/`subBbbK`/`negBK`, `inttK`, `bToZnx128Core`).  The AVX2 back end differs only in these kernels; for each of them the
+C10 lane model (`Model/AvxNtt.lean`, `BitVec 64` intrinsics) computes the same value on every operand that can occur:
+
+| HAL step | C10 lemma used | range needed | provided by |
+|---|---|---|---|
+| `b_from_znx64[_masked]` | `Avx.Ntt.bFromZnx64_eq_ref` | none (all `i64`) | — |
+| `ntt_avx2` | `Avx.Ntt.nttAvx_real` | none (all `u64`) | its hypothesis `fitsTable` (table entries are `u64`) proved here: `nttTable_fits` |
+| `c_from_b_avx2`, `pack_left` | `Avx.Ntt.barrett_eq_mod`, `reduceB_toNat` (C10) + `cFromB_eq_ref_wide` (here) | none (all `u64`) | `2^32 mod Q[k] < 2^28` |
+| `pairwise_pack_left` | `reduceB_toNat`, `condSub_toNat` (C10) + `pairwisePackLeft_eq_ref_wide` (here) | none (all `u64`) | `2^32 mod Q[k] < 2^28` |
+| `pairwise_pack_right` | `C10.NttAvx.ntt120_avx_pairwise_pack_right_eq_ref` | none (wrapping `u32` sum) | — |
+| `bbc` 1col / x2 / 2cols | `Avx.Ntt.bbcLane_eq_ref` | none (`< 2^24` rows of any `u64`) | — |
+| lazy add / sub / negate | `C10.NttAvx.ntt120_avx_lazy_lanes_all_inputs` (intrinsics = `addBbbAvxK` …, all inputs; SAT-backed, C10's axioms) | `x < 2·Q_SHIFTED` for `addBbbAvxK = addBbbK` | `ntt120_hal_compositions` / `ntt120_lazy_range_invariant` (here; `AvxBridge.avx_lazy_on_reachable` composes the two) |
+| `intt_avx2` | `Avx.Ntt.inttAvx_real` | none | `fitsTable`: `inttTable_fits` |
+| `b_to_znx128_avx2` | `Avx.Ntt.bToZnx128Avx_eq_ref` | `x < Q·2^33` | `inttK_real_bound` + `primes30_transform_ranges` |
+
+Since the x2-block / column layouts are shared by the two back ends, the AVX2 pipelines store the reference pipelines' bits, and
+`ntt120_svp_matches_spec`, `ntt120_vmp_full_matches_spec`, `ntt120_cnv_matches_spec`, `ntt120_dft_apply_matches_spec`,
+`ntt120_hal_compositions` hold for NTT120Avx as stated. -/
+
+/-- `c_from_b_avx2`, `pack_left_1blk_x2_avx2` and `pairwise_pack_left_1blk_x2_avx2` with the Primes30 constants equal the reference on EVERY 64-bit word (C10 proves
+`x < Q·2^33`; forward transform outputs exceed that, e.g. `lazyWitness`) -/
+theorem ntt120avx_prepare_all_inputs (k : Nat) (hk : k < 4) (x : BitVec 64) :
+    ((Avx.Ntt.cFromB x (BitVec.ofNat 64 (Avx.Q120.Q.getD k 0)) (BitVec.ofNat 64 (Avx.Q120.MU.getD k 0)) (BitVec.ofNat 64 (Avx.Q120.POW32.getD k 0))).toNat % 2 ^ 32,
+     (Avx.Ntt.cFromB x (BitVec.ofNat 64 (Avx.Q120.Q.getD k 0)) (BitVec.ofNat 64 (Avx.Q120.MU.getD k 0)) (BitVec.ofNat 64 (Avx.Q120.POW32.getD k 0))).toNat / 2 ^ 32)
+      = cPairK (primes30.qs.getD k 1) x.toNat ∧
+    ((Avx.Ntt.reduceBToCanonical x (BitVec.ofNat 64 (Avx.Q120.Q.getD k 0)) (BitVec.ofNat 64 (Avx.Q120.MU.getD k 0)) (BitVec.ofNat 64 (Avx.Q120.POW32.getD k 0))).toNat % 2 ^ 32,
+     (Avx.Ntt.reduceBToCanonical x (BitVec.ofNat 64 (Avx.Q120.Q.getD k 0)) (BitVec.ofNat 64 (Avx.Q120.MU.getD k 0)) (BitVec.ofNat 64 (Avx.Q120.POW32.getD k 0))).toNat / 2 ^ 32)
+      = packLeftK (primes30.qs.getD k 1) x.toNat ∧
+    ∀ y : BitVec 64, ((Avx.Ntt.pairwisePackLeft x y (BitVec.ofNat 64 (Avx.Q120.Q.getD k 0)) (BitVec.ofNat 64 (Avx.Q120.MU.getD k 0))
+        (BitVec.ofNat 64 (Avx.Q120.POW32.getD k 0))).toNat, 0) = pairwisePackLeftK (primes30.qs.getD k 1) x.toNat y.toNat :=
+  ⟨AvxBridge.avx_c_from_b_lane_eq_ref k hk x, AvxBridge.avx_pack_left_lane_eq_ref k hk x,
+   fun y => AvxBridge.avx_pairwise_pack_left_lane_eq_ref k hk x y⟩
+
+/-- the hypothesis `fitsTable` of C10's whole-transform theorems holds for every table the constructors return (all three prime
+sets, every `n`): `wu64`, `maskOf`, `pack_omega`, `modq_pow` produce 64-bit words and the bit-size assertions bound `half_bs` -/
+theorem ntt120_tables_are_u64 (P : PrimeSet) (hP : P ∈ [primes29, primes30, primes31]) (k n : Nat) (hk : k < 4) (t ti : TableK)
+    (ht : nttTableK P k n = .ok t) (hti : inttTableK P k n = .ok ti) :
+    Avx.Ntt.fitsTable t = true ∧ Avx.Ntt.fitsTable ti = true :=
+  ⟨nttTable_fits P k n t ht (reduc_fits P hP k hk).1 (reduc_fits P hP k hk).2.1 (reduc_fits P hP k hk).2.2,
+   inttTable_fits P k n ti hti (reduc_fits P hP k hk).1 (reduc_fits P hP k hk).2.1 (reduc_fits P hP k hk).2.2⟩
+
+/-- `vec_znx_dft_apply` on NTT120Avx: the stored lane is the reference lane and represents the coefficient limb -/
+theorem ntt120avx_dft_lane (k j : Nat) (hk : k < 4) (hj1 : 1 ≤ j) (hj : j ≤ 16) (t : TableK)
+    (ht : nttTableK primes30 k (2 ^ j) = .ok t) (split : Nat) (a : Poly) (ha : PolyOK j a) :
+    Avx.Ntt.tn (Avx.Ntt.nttAvx (Avx.Ntt.redCOf t.reduc) (t.levels.map Avx.Ntt.levelCOf) split
+        (a.map (fun x => Avx.Ntt.bFromZnx64 (BitVec.ofInt 64 x) (BitVec.ofNat 64 (oq (primes30.qs.getD k 1))))))
+      = nttK t (a.map (fun x => bFromU64K (primes30.qs.getD k 1) (asU64 x))) ∧
+    Rep primes30 k j (Avx.Ntt.tn (Avx.Ntt.nttAvx (Avx.Ntt.redCOf t.reduc) (t.levels.map Avx.Ntt.levelCOf) split
+        (a.map (fun x => Avx.Ntt.bFromZnx64 (BitVec.ofInt 64 x) (BitVec.ofNat 64 (oq (primes30.qs.getD k 1))))))) a :=
+  ⟨AvxBridge.avx_dft_lane_eq_ref k j hk hj1 hj t ht split a ha.1, AvxBridge.avx_dft_lane_rep k j hk hj1 hj t ht split a ha⟩
+
+/-- every `bbc` product on NTT120Avx (`svp_apply`, `vmp_apply`, `cnv_apply`): the AVX2 lane is `bbcK` on the same rows -/
+theorem ntt120avx_bbc_lane (k : Nat) (hk : k < 4) (rows : List (BitVec 64 × BitVec 64)) (hell : rows.length < 2 ^ 24) :
+    (Avx.Ntt.bbcLane (BitVec.ofNat 64 (maskOf (bbcH primes30))) (BitVec.ofNat 64 (bbcH primes30))
+        (BitVec.ofNat 64 (pow2Mod 32 (primes30.qs.getD k 1))) (BitVec.ofNat 64 (pow2Mod (32 + bbcH primes30) (primes30.qs.getD k 1))) rows).toNat
+      = bbcK (bbcH primes30) (pow2Mod 32 (primes30.qs.getD k 1)) (pow2Mod (32 + bbcH primes30) (primes30.qs.getD k 1)) (rows.map Avx.Ntt.termOf) :=
+  AvxBridge.avx_bbc_lane_eq_ref k hk rows hell
+
+/-- `vec_znx_idft_apply` on NTT120Avx, coefficient `i`, for EVERY DFT-domain content: `intt_avx2` + `b_to_znx128_avx2` give the
+reference's coefficient (`intt_ref` + `b_to_znx128_ref`) -/
+theorem ntt120avx_idft_coeff (j : Nat) (hj1 : 1 ≤ j) (hj : j ≤ 16) (t : Nat → TableK)
+    (ht : ∀ k, k < 4 → inttTableK primes30 k (2 ^ j) = .ok (t k))
+    (jj : Nat) (hjj : jj ≤ j) (cs : Nat → List (List (BitVec 64))) (hc : ∀ k, k < 4 → ∀ c ∈ cs k, c.length = 2 ^ jj)
+    (hlen : ∀ k, k < 4 → (cs k).flatten.length = 2 ^ j) (i : Nat) (hi : i < 2 ^ j) (x : Avx.V4)
+    (hx0 : x.l0 = (Avx.Ntt.inttAvx (Avx.Ntt.redCOf (t 0).reduc) ((t 0).levels.map Avx.Ntt.levelCOf) jj (cs 0)).getD i 0#64)
+    (hx1 : x.l1 = (Avx.Ntt.inttAvx (Avx.Ntt.redCOf (t 1).reduc) ((t 1).levels.map Avx.Ntt.levelCOf) jj (cs 1)).getD i 0#64)
+    (hx2 : x.l2 = (Avx.Ntt.inttAvx (Avx.Ntt.redCOf (t 2).reduc) ((t 2).levels.map Avx.Ntt.levelCOf) jj (cs 2)).getD i 0#64)
+    (hx3 : x.l3 = (Avx.Ntt.inttAvx (Avx.Ntt.redCOf (t 3).reduc) ((t 3).levels.map Avx.Ntt.levelCOf) jj (cs 3)).getD i 0#64) :
+    Avx.Ntt.bToZnx128AvxCoef x Avx.Ntt.qV Avx.Ntt.muV Avx.Ntt.p32V Avx.Ntt.p16V Avx.Ntt.crtV Avx.Ntt.hiV Avx.Ntt.midV Avx.Ntt.loV (bigQ primes30)
+      = bToZnx128Core primes30 ((inttK (t 0) (Avx.Ntt.tn (cs 0).flatten)).getD i 0) ((inttK (t 1) (Avx.Ntt.tn (cs 1).flatten)).getD i 0)
+          ((inttK (t 2) (Avx.Ntt.tn (cs 2).flatten)).getD i 0) ((inttK (t 3) (Avx.Ntt.tn (cs 3).flatten)).getD i 0) :=
+  AvxBridge.avx_idft_coeff_eq_ref j hj1 hj t ht jj hjj cs hc hlen i hi x hx0 hx1 hx2 hx3
+
+/-! non-vacuity: the executable HAL pipelines on concrete columns, against the specification functions -/
+
+example : cnvPipeline primes30 2 3 0 2 2 (-1) (-4) [[1, 2], [3, -4]] [[5, 6], [-7, 9]] =
+    cnvApplyCol 2 3 0 (cnvPrepareCol 2 2 (-1) [[1, 2], [3, -4]]) (cnvPrepareCol 2 2 (-4) [[5, 6], [-7, 9]]) := by decide +kernel
+example : cnvPipeline primes30 2 3 1 2 2 (-1) (-4) [[1, 2], [3, -4]] [[5, 6], [-7, 9]] = [[15, -10], [8, 56], [0, 0]] := by decide +kernel
+example : cnvPairwisePipeline primes30 2 2 0 1 1 (-1) (-1) [[1, 2]] [[3, 4]] [[5, 6]] [[7, -8]] =
+    cnvApplyCol 2 2 0 (colAdd 2 [[1, 2]] [[3, 4]]) (colAdd 2 [[5, 6]] [[7, -8]]) := by decide +kernel
+example : vmpFullPipeline primes30 2 [[1, 0], [0, 3], [7, 7]] ⟨2, 2, 1, 1, 3, [[[[1, 2], [5, -6], [1, 0]]], [[[0, 1], [2, -2], [9, 8]]]]⟩ 1 3 =
+    vmpFlat 2 [[1, 0], [0, 3], [7, 7]] ⟨2, 2, 1, 1, 3, [[[[1, 2], [5, -6], [1, 0]]], [[[0, 1], [2, -2], [9, 8]]]]⟩ 1 3 := by decide +kernel
+example : vmpFullPipeline primes30 2 [[1, 0], [0, 3], [7, 7]] ⟨2, 2, 1, 1, 3, [[[[1, 2], [5, -6], [1, 0]]], [[[0, 1], [2, -2], [9, 8]]]]⟩ 1 3 =
+    [[11, 0], [-23, 27], [0, 0]] := by decide +kernel
+example : vmpWrites 1 5 5 = [⟨0, true, 0, 1⟩, ⟨1, true, 2, 0⟩, ⟨2, true, 2, 1⟩, ⟨3, false, 4, 0⟩] := by decide
+example : vmpWrites 2 5 6 = [⟨0, true, 2, 0⟩, ⟨1, true, 2, 1⟩, ⟨2, true, 4, 0⟩] := by decide
+example : vmpSlotAddr 3 5 2 4 1 = 4 * 3 * 16 + 2 * 16 + 3 * 5 * 16 ∧ vmpSlotAddr 3 5 2 3 0 = 1 * (3 * 32) + 2 * 32 + 16 := by decide
+example : 2 ^ 63 ≤ fwdFinal primes30 0 6 ∧ fwdFinal primes30 0 5 < 2 ^ 63 := by decide +kernel
+example : (DExpr.sub (.svp [1, 2] (.dft [3, 4])) (.neg (.dft [5, 6]))).spec 2 = [0, 16] ∧
+    (DExpr.sub (.svp [1, 2] (.dft [3, 4])) (.neg (.dft [5, 6]))).WF 1 := by
+  refine ⟨by decide, ⟨⟨by decide, by decide⟩, by decide, by decide⟩, by decide, by decide⟩
+example : idftLimb primes30 2 ((DExpr.sub (.svp [1, 2] (.dft [3, 4])) (.neg (.dft [5, 6]))).lane primes30 0 2 true)
+    ((DExpr.sub (.svp [1, 2] (.dft [3, 4])) (.neg (.dft [5, 6]))).lane primes30 1 2 true)
+    ((DExpr.sub (.svp [1, 2] (.dft [3, 4])) (.neg (.dft [5, 6]))).lane primes30 2 2 true)
+    ((DExpr.sub (.svp [1, 2] (.dft [3, 4])) (.neg (.dft [5, 6]))).lane primes30 3 2 true) = [0, 16] := by decide +kernel
+example : Reach primes30 0 6 true (addBbbAvxK (primes30.qs.getD 0 1) lazyWitness lazyWitness) := by
+  have h : lazyWitness ≤ fwdFinal primes30 0 6 := by decide +kernel
+  have := Reach.add (avx := true) lazyWitness lazyWitness (Reach.dft _ h) (Reach.dft _ h)
+  simpa using this
+example : compactCrt primes30 [primes30.q0 * 2 ^ 33 - 1, 5, primes30.q2 * 2 ^ 33 - 1, 0] =
+    .ok (bToZnx128Core primes30 (primes30.q0 * 2 ^ 33 - 1) 5 (primes30.q2 * 2 ^ 33 - 1) 0) :=
+  ntt120_idft_consume_eq_apply _ _ _ _ (by decide) (by decide) (by decide) (by decide)
+example : (match compactCrt primes30 [primes30.q0 * 2 ^ 33 - 1, 5, primes30.q2 * 2 ^ 33 - 1, 0] with
+    | .ok v => decide (v = -300557948761496581723738491311732269) | _ => false) = true := by decide +kernel
+example : addCccK primes30.q0 (2 ^ 32 - 1) (2 ^ 32 - 1) = (2 ^ 33 - 2) % primes30.q0 := by decide
+example : baaK (baaMeta primes31).h ((baaMeta primes31).hPowRed.getD 0 0) [(2 ^ 32 - 1, 2 ^ 32 - 1), (7, 9)] % primes31.q0 =
+    ((2 ^ 32 - 1) * (2 ^ 32 - 1) + 63) % primes31.q0 := by decide +kernel
+example : (fillReductionMeta primes30 64).h = 47 ∧ (fillReductionMeta primes31 64).bsAfter = 47 := by decide +kernel
+example : ((Avx.Ntt.cFromB (BitVec.ofNat 64 lazyWitness) (BitVec.ofNat 64 (Avx.Q120.Q.getD 0 0)) (BitVec.ofNat 64 (Avx.Q120.MU.getD 0 0))
+      (BitVec.ofNat 64 (Avx.Q120.POW32.getD 0 0))).toNat % 2 ^ 32) = (cPairK primes30.q0 lazyWitness).1 ∧
+    primes30.q0 * 2 ^ 33 < lazyWitness := by decide +kernel
+
+end NTT120Hal
+
+end C07
+
+
+/-!
+# FFT64 — the floating-point half (appended slice)
+
+`Model/F64.lean` is an exact executable model of IEEE-754 binary64 (`+ − *`, unary `−`, `i64 → f64`, the
+`(x·2^-k).round() as i64` conversion) on 64-bit patterns; `Model/Fft64.lean` models the reference transform
+(`fft_ref`, `ifft_ref`, `reim_from/to_znx_i64`, `reim_mul/addmul`, the svp / vmp / idft path).  Both are tied bit for
+bit to `poulpy_cpu_ref` by the `fft64` gate.  The theorems below are about exactly those definitions:
+
+* (a) the rounding function is round-to-nearest (half an ulp, exact on representable values, monotone), `add/sub/mul` are the
+  correctly rounded exact results, `fl(x∘y) = (x∘y)(1+δ)` with `|δ| ≤ 2^-53`;
+* (b) a-priori error bounds of the forward and inverse networks **for every `n = 2^k`** by induction over the levels,
+  under the hypothesis that the table is within `τ` of the true roots of unity (`Fft64.TableAccurate`: *checked*
+  numerically by the gate for every dumped table, proved here for the `m = 2` table);
+* the exact networks evaluate at the roots of `X^m − i`, invert each other up to `2^k`, and turn the negacyclic product
+  into the slot-wise product;
+* hence **`fft64_pipeline_exact`**: inside the explicit domain `Fft64.SvpDomain` the value the FFT64 svp pipeline
+  returns is exactly `Hal.negMul`; `fft64_domain_numeric` gives the domain in numbers for `n ≤ 2^16`.
+
+PARTIAL with respect to the slice brief: the a-priori domain is a worst-case (sup-norm) bound, `n²·(9/16)·|a|·|b|·(20k+6)·2^-53 < 1/2`,
+i.e. `n·|a|·|b| ≤ 2^35` at `n = 1024` and `2^28` at `n = 65536`, where the measured boundary on the tried worst-case inputs is
+`2^49`; the vmp domain (`VmpDomain`) is explicit but has no closed-form table; the AVX2/FMA variants and the convolution path
+have no theorem (tied only).
+-/
+
+namespace C07
+open F64 Fft64 Complex Hal
+
+/-! ### (a) the binary64 model -/
+
+/-- `round` is round-to-nearest: finite result, error at most `max (2^-53·|x|) 2^-1075`, below `2^1023` -/
+theorem f64_round_nearest (d : Dy) (hx : |d.val| < (2:ℝ) ^ (1023:Int)) :
+    Fin64 (round d) ∧ |val (round d) - d.val| ≤ max (u * |d.val|) η :=
+  ⟨(val_round d hx).1, (val_round d hx).2.1⟩
+
+/-- half a unit in the last place: `|round x − x| ≤ 2^(q−1)`, `q` the exponent of the result's last bit -/
+theorem f64_round_half_ulp (d : Dy) (hm : d.m ≠ 0) (hx : |d.val| < (2:ℝ) ^ (1023:Int)) :
+    |val (round d) - d.val| ≤ (2:ℝ) ^ (quantum d.m d.e - 1) :=
+  (val_round d hx).2.2.2 hm
+
+/-- `round` is the identity on representable values (at most 53 significant bits, exponent `≥ -1074`) -/
+theorem f64_round_exact_on_representable (d : Dy) (hm : d.m < 2 ^ 53) (he : -1074 ≤ d.e)
+    (hx : |d.val| < (2:ℝ) ^ (1023:Int)) : val (round d) = d.val := by
+  by_cases h0 : d.m = 0
+  · have hd : d = ⟨d.neg, 0, d.e⟩ := by cases d; simp_all
+    have h := round_zero d.neg d.e
+    rw [← hd] at h
+    rw [val_of_decode h, Dy.val_zero]; unfold Dy.val; rw [h0]; simp
+  · apply (val_round d hx).2.2.1 h0
+    have : Nat.log2 d.m < 53 := (Nat.log2_lt h0).2 hm
+    unfold quantum; push_cast; omega
+
+/-- `round` is monotone: `x ≤ y → round x ≤ round y` (ties go to even on both sides of a shared midpoint, binade
+boundaries are fixed points) -/
+theorem f64_round_monotone (x y : Dy) (hx : |x.val| < (2:ℝ) ^ (1023:Int)) (hy : |y.val| < (2:ℝ) ^ (1023:Int))
+    (h : x.val ≤ y.val) : val (round x) ≤ val (round y) := round_mono x y hx hy h
+
+/-- every finite pattern is a fixed point of decode → value: its value is representable -/
+theorem f64_decode_representable {b : Nat} {d : Dy} (h : decode b = some d) : d.m < 2 ^ 53 ∧ -1074 ≤ d.e ∧ d.e ≤ 971 :=
+  decode_bounds h
+
+/-- `a + b` is the correctly rounded exact sum; no underflow error -/
+theorem f64_add_correctly_rounded (a b : Nat) (ha : Fin64 a) (hb : Fin64 b) (hx : |val a + val b| < (2:ℝ) ^ (1023:Int)) :
+    Fin64 (add a b) ∧ |val (add a b) - (val a + val b)| ≤ u * |val a + val b| := add_spec a b ha hb hx
+
+theorem f64_sub_correctly_rounded (a b : Nat) (ha : Fin64 a) (hb : Fin64 b) (hx : |val a - val b| < (2:ℝ) ^ (1023:Int)) :
+    Fin64 (sub a b) ∧ |val (sub a b) - (val a - val b)| ≤ u * |val a - val b| := sub_spec a b ha hb hx
+
+theorem f64_mul_correctly_rounded (a b : Nat) (ha : Fin64 a) (hb : Fin64 b) (hx : |val a * val b| < (2:ℝ) ^ (1023:Int)) :
+    Fin64 (mul a b) ∧ |val (mul a b) - val a * val b| ≤ max (u * |val a * val b|) η := mul_spec a b ha hb hx
+
+theorem f64_neg_exact (a : Nat) (ha : Fin64 a) : Fin64 (neg a) ∧ val (neg a) = -val a := neg_spec a ha
+
+/-- standard model of floating-point arithmetic: `fl(x·y) = x·y·(1+δ)`, `|δ| ≤ 2^-53` (normal range) -/
+theorem f64_mul_standard_model (a b : Nat) (ha : Fin64 a) (hb : Fin64 b) (hlo : (2:ℝ) ^ (-1022:Int) ≤ |val a * val b|)
+    (hhi : |val a * val b| < (2:ℝ) ^ (1023:Int)) :
+    ∃ δ : ℝ, |δ| ≤ u ∧ val (mul a b) = val a * val b * (1 + δ) := (mul_rel a b ha hb hlo hhi).2
+
+/-- `fl(x+y) = (x+y)(1+δ)`, `|δ| ≤ 2^-53`, with no lower range restriction -/
+theorem f64_add_standard_model (a b : Nat) (ha : Fin64 a) (hb : Fin64 b) (hhi : |val a + val b| < (2:ℝ) ^ (1023:Int)) :
+    ∃ δ : ℝ, |δ| ≤ u ∧ val (add a b) = (val a + val b) * (1 + δ) := (add_rel a b ha hb hhi).2
+
+/-- `x as f64` is exact below `2^53` and correctly rounded beyond -/
+theorem f64_of_int (x : Int) (hx : |(x:ℝ)| < (2:ℝ) ^ (1023:Int)) :
+    Fin64 (ofInt x) ∧ |val (ofInt x) - (x:ℝ)| ≤ u * |(x:ℝ)| ∧ (x.natAbs < 2 ^ 53 → val (ofInt x) = (x:ℝ)) := ofInt_spec x hx
+
+/-- `reim_to_znx_i64`: a value whose scaled image is within `1/2` (after the rounding of the scaling) of an integer is
+converted to that integer -/
+theorem f64_to_i64 (k : Nat) (hk : k ≤ 1022) (a : Nat) (ha : Fin64 a) (c : Int) (hc : |c| ≤ 2 ^ 62)
+    (hx : |val a * (2:ℝ) ^ (-(k:Int))| < (2:ℝ) ^ (1023:Int))
+    (h : |val a * (2:ℝ) ^ (-(k:Int)) - (c:ℝ)| + max (u * |val a * (2:ℝ) ^ (-(k:Int))|) η < 1 / 2) :
+    toI64 k a = c := toI64_spec k hk a ha c hc hx h
+
+/-! non-vacuity of (a): concrete patterns (1.0 + 2^-53 ties to even; (1+2^-52)² rounds down; 2^53+1 ties to even) -/
+example : add 0x3FF0000000000000 0x3CA0000000000000 = 0x3FF0000000000000 := by decide +kernel
+example : mul 0x3FF0000000000001 0x3FF0000000000001 = 0x3FF0000000000002 := by decide +kernel
+example : ofInt 9007199254740993 = 0x4340000000000000 ∧ ofInt (-3) = 0xC008000000000000 := by decide +kernel
+example : toI64 2 0x4024000000000000 = 3 ∧ toI64 2 0xC024000000000000 = -3 ∧ toI64 0 0x43E0000000000000 = 2 ^ 63 - 1 := by
+  decide +kernel
+/-- monotonicity on a concrete pair: `2^53 + 1 ≤ 2^53 + 3` round to `2^53` resp. `2^53 + 4` -/
+example : val (round ⟨false, 2 ^ 53 + 1, 0⟩) ≤ val (round ⟨false, 2 ^ 53 + 3, 0⟩) := by
+  have b : (2:ℝ) ^ (54:Nat) < (2:ℝ) ^ (1023:Int) := by
+    rw [← zpow_natCast]; exact zpow_lt_zpow_right₀ (by norm_num) (by norm_num)
+  apply f64_round_monotone
+  · rw [Dy.val_abs]; refine lt_trans ?_ b; norm_num
+  · rw [Dy.val_abs]; refine lt_trans ?_ b; norm_num
+  · unfold Dy.val; norm_num
+example : F64.round ⟨false, 2 ^ 53 + 1, 0⟩ = 0x4340000000000000 ∧ F64.round ⟨false, 2 ^ 53 + 3, 0⟩ = 0x4340000000000002 := by decide +kernel
+example : Fin64 0x3FF0000000000000 ∧ val 0x3FF0000000000000 = 1 := by
+  have h : decode 0x3FF0000000000000 = some ⟨false, 2 ^ 52, -52⟩ := by decide +kernel
+  refine ⟨⟨_, h⟩, ?_⟩
+  rw [val_of_decode h]; unfold Dy.val; simp only [Bool.false_eq_true, if_false, one_mul]
+  rw [zpow_neg]; norm_num
+
+/-! ### (b) per-butterfly lemmas and the inductive error bounds -/
+
+/-- one `cplx_twiddle` / `cplx_i_twiddle`: both outputs within `γf τ · M` of the exact butterfly -/
+theorem fft64_butterfly_error (t : Tw) (a b : C64) (ω : ℂ) (τ M : ℝ) (ht : TwFin t) (ha : CFin a) (hb : CFin b)
+    (hω : ‖ω‖ = 1) (hτ : ‖twC t - ω‖ ≤ τ) (hτ1 : τ ≤ 1) (hMa : ‖cval a‖ ≤ M) (hMb : ‖cval b‖ ≤ M)
+    (hM1 : 1 ≤ M) (hM2 : M ≤ (2:ℝ) ^ (999:Int)) :
+    CFin (bflyFwd t a b).1 ∧ CFin (bflyFwd t a b).2 ∧
+    ‖cval (bflyFwd t a b).1 - (cval a + ω * cval b)‖ ≤ γf τ * M ∧
+    ‖cval (bflyFwd t a b).2 - (cval a - ω * cval b)‖ ≤ γf τ * M :=
+  bflyFwd_err t a b ω τ M ht ha hb hω hτ hτ1 hMa hMb hM1 hM2
+
+/-- one `inv_twiddle` / `inv_itwiddle` -/
+theorem fft64_inv_butterfly_error (t : Tw) (a b : C64) (ω : ℂ) (τ M : ℝ) (ht : TwFin t) (ha : CFin a) (hb : CFin b)
+    (hω : ‖ω‖ = 1) (hτ : ‖twCi t - ω‖ ≤ τ) (hτ1 : τ ≤ 1) (hMa : ‖cval a‖ ≤ M) (hMb : ‖cval b‖ ≤ M)
+    (hM1 : 1 ≤ M) (hM2 : M ≤ (2:ℝ) ^ (997:Int)) :
+    CFin (bflyInv t a b).1 ∧ CFin (bflyInv t a b).2 ∧
+    ‖cval (bflyInv t a b).1 - (cval a + cval b)‖ ≤ γi τ * M ∧
+    ‖cval (bflyInv t a b).2 - (cval a - cval b) * ω‖ ≤ γi τ * M :=
+  bflyInv_err t a b ω τ M ht ha hb hω hτ hτ1 hMa hMb hM1 hM2
+
+/-- the per-butterfly constants in numbers for `τ = 2^-51`: `γf = 10.5·2^-53`, `γi = 19·2^-53` (up to `2^-100`) -/
+theorem fft64_gamma_numeric : γf τ51 ≤ 10.51 * u ∧ γi τ51 ≤ 19.01 * u := by
+  constructor
+  · unfold γf κ u τ51; norm_num
+  · unfold γi κ u τ51; norm_num
+
+/-- **forward transform, every `k`**: inputs within `E` of exact vectors bounded by `A` give outputs within
+`errB (γf τ) k A E = 2^k·((1+γf/2)^k·(A+E) − A)` of the exact network, whose values are bounded by `2^k·A` -/
+theorem fft64_forward_error_bound (τ : ℝ) (hτ0 : 0 ≤ τ) (hτ1 : τ ≤ 1) (tw : Nat → Nat → Tw)
+    (k lvl blk : Nat) (j A E : ℝ) (zc : List C64) (z : List ℂ) (hA : 1 ≤ A) (hE : 0 ≤ E) (hlen : zc.length = 2 ^ k)
+    (hc : Close E A zc z) (hacc : AccF τ tw k lvl blk j)
+    (hbig : 2 ^ k * (1 + γf τ / 2) ^ k * (A + E) ≤ (2:ℝ) ^ (999:Int)) :
+    Close (errB (γf τ) k A E) (2 ^ k * A) (fwd tw k lvl blk zc) (fwdE k j z) :=
+  fwd_err τ hτ0 hτ1 tw k lvl blk j A E zc z hA hE hlen hc hacc hbig
+
+/-- **inverse transform, every `k`** -/
+theorem fft64_inverse_error_bound (τ : ℝ) (hτ0 : 0 ≤ τ) (hτ1 : τ ≤ 1) (tw : Nat → Nat → Tw)
+    (k lvl blk : Nat) (j A E : ℝ) (zc : List C64) (z : List ℂ) (hA : 1 ≤ A) (hE : 0 ≤ E) (hlen : zc.length = 2 ^ k)
+    (hc : Close E A zc z) (hacc : AccI τ tw k lvl blk j)
+    (hbig : 2 ^ k * (1 + γi τ / 2) ^ k * (A + E) ≤ (2:ℝ) ^ (997:Int)) :
+    Close (errB (γi τ) k A E) (2 ^ k * A) (inv tw k lvl blk zc) (invE k j z) :=
+  inv_err τ hτ0 hτ1 tw k lvl blk j A E zc z hA hE hlen hc hacc hbig
+
+/-- the forward bound in the brief's form: `‖fft_computed(x) − DFT_exact(x)‖∞ ≤ ((1+γf/2)^k − 1)·m·M'` for exact inputs
+bounded by `M'` (`m = 2^k` points; `(1+γf/2)^k − 1 ≈ k·γf/2`) -/
+theorem fft64_forward_error_closed_form (γ : ℝ) (k : Nat) (A : ℝ) :
+    errB γ k A 0 = ((1 + γ / 2) ^ k - 1) * (2 ^ k * A) := by unfold errB; ring
+
+/-! ### the exact networks -/
+
+/-- the exact forward network evaluates the packed polynomial at the `2^k` roots of `X^(2^k) = e^{2πi·j}` -/
+theorem fft64_exact_network_is_evaluation (k : Nat) (j : ℝ) (z : List ℂ) (hz : z.length = 2 ^ k) :
+    fwdE k j z = (rootsL k j).map (fun r => NttMath.ev z r) ∧ ∀ r ∈ rootsL k j, r ^ (2 ^ k) = cis j :=
+  ⟨fwdE_eval k j z hz, rootsL_pow k j⟩
+
+theorem fft64_exact_inverse (k : Nat) (j : ℝ) (z : List ℂ) (hz : z.length = 2 ^ k) :
+    invE k j (fwdE k j z) = z.map ((2:ℂ) ^ k * ·) := invE_fwdE k j z hz
+
+/-- convolution theorem: negacyclic product in `Z[X]/(X^n+1)` ↦ slot-wise product -/
+theorem fft64_exact_convolution (k : Nat) (a b : Poly) (ha : a.length = 2 ^ (k + 1)) (hb : b.length = 2 ^ (k + 1)) :
+    fwdE k (1 / 4) (packC (2 ^ k) ((Hal.negMul a b).map cc)) =
+      List.zipWith (· * ·) (fwdE k (1 / 4) (packC (2 ^ k) (a.map cc))) (fwdE k (1 / 4) (packC (2 ^ k) (b.map cc))) :=
+  fwdE_mul k a b ha hb
+
+/-! ### the pipeline -/
+
+/-- **`fft64_pipeline_exact`**: `svp_prepare(p)`; `svp_apply_dft(x)`; `vec_znx_idft_apply` on FFT64Ref (model
+`Fft64.svpPipeline`, tied bit for bit) returns EXACTLY the negacyclic product `Hal.negMul p x`, for every `n = 2·2^K`,
+whenever the tables are `τ`-accurate and `(K, τ, Ma, Mb)` lie in the explicit magnitude domain `SvpDomain` -/
+theorem fft64_pipeline_exact (K : Nat) (omg iomg : Array Nat) (τ Ma Mb : ℝ) (p x : List Int)
+    (hacc : TableAccurate τ K omg iomg)
+    (hp : p.length = 2 ^ (K + 1)) (hx : x.length = 2 ^ (K + 1))
+    (hpM : ∀ c ∈ p, c.natAbs < 2 ^ 53 ∧ |(c:ℝ)| ≤ Ma) (hxM : ∀ c ∈ x, c.natAbs < 2 ^ 53 ∧ |(c:ℝ)| ≤ Mb)
+    (hdom : SvpDomain K τ Ma Mb) : svpPipeline K omg iomg p x = Hal.negMul p x :=
+  svp_pipeline_exact' K omg iomg τ Ma Mb p x hacc hp hx hpM hxM hdom
+
+/-- the domain in closed form: `n²·(9/16)·Ma·Mb·((G−1)(1+u) + u) + 2^-1075 < 1/2` with
+`G = (1+γi/2)^K·(1+γf/2)^(2K)·(1+3κ/2)` (`4^K = n²/4`) implies every side condition -/
+theorem fft64_domain_closed_form (K : Nat) (τ Ma Mb : ℝ) (hτ0 : 0 ≤ τ) (hτ1 : τ ≤ 1) (hK : K ≤ 1022) (hMa : 1 ≤ Ma) (hMb : 1 ≤ Mb)
+    (hmain : 4 ^ K * (9 / 4) * ((G K τ - 1) * (1 + u) + u) * (Ma * Mb) + η < 1 / 2) : SvpDomain K τ Ma Mb :=
+  svpDomain_of_main K τ Ma Mb hτ0 hτ1 hK hMa hMb hmain
+
+/-- relative a-priori error of the whole pipeline for `τ = 2^-51`: `(G−1)(1+u) + u ≤ (20K + 6)·2^-53`, `K ≤ 15` -/
+theorem fft64_growth_numeric (K : Nat) (hK : K ≤ 15) : (G K τ51 - 1) * (1 + u) + u ≤ (20 * K + 6) * u := growth_le K hK
+
+/-- **the domain in numbers for `n ≤ 2^16`**: `Ma·Mb ≤ 2^(domBits K)`, `domBits = 48, 44, 41, 38, 36, 34, 31, 29, 27, 25, 23,
+21, 18, 16, 14, 12` for `n = 2, 4, …, 65536` (`n·Ma·Mb ≤ 2^49, 2^46, 2^44, 2^42, 2^41, 2^40, 2^38, 2^37, 2^36, 2^35, 2^34, 2^33, 2^31,
+2^30, 2^29, 2^28`) -/
+theorem fft64_domain_numeric (K : Nat) (hK : K ≤ 15) (Ma Mb : ℝ) (hMa : 1 ≤ Ma) (hMb : 1 ≤ Mb)
+    (h : Ma * Mb ≤ (2:ℝ) ^ (domBits K)) : SvpDomain K τ51 Ma Mb := svpDomain_numeric K hK Ma Mb hMa hMb h
+
+/-- the two combined, integer hypotheses only -/
+theorem fft64_pipeline_exact_numeric (K : Nat) (hK : K ≤ 15) (omg iomg : Array Nat) (hacc : TableAccurate τ51 K omg iomg)
+    (p x : List Int) (hp : p.length = 2 ^ (K + 1)) (hx : x.length = 2 ^ (K + 1)) (A B : Nat) (hA : 1 ≤ A) (hB : 1 ≤ B)
+    (hpA : ∀ c ∈ p, c.natAbs ≤ A) (hxB : ∀ c ∈ x, c.natAbs ≤ B) (hAB : A * B ≤ 2 ^ domBits K) :
+    svpPipeline K omg iomg p x = Hal.negMul p x :=
+  svp_pipeline_exact_numeric K hK omg iomg hacc p x hp hx A B hA hB hpA hxB hAB
+
+/-- the hypothesis `TableAccurate` is satisfiable, and for the crate's `m = 2` tables it is *proved* (`√2/2` bounds) -/
+theorem fft64_table_accurate_m2 : TableAccurate τ51 1 omg2 iomg2 := tableAccurate_m2
+
+/-- **`fft64_vmp_exact`**: `vmp_prepare(rows b_j)`; `vmp_apply_dft(a)` (one output column: `reim4_vec_mat*_product_ref`
+accumulates `acc += a_j·b_j` row by row from `+0`); `vec_znx_idft_apply` returns EXACTLY the sum of the negacyclic
+products, inside the explicit domain `VmpDomain K rows τ Ma Mb` (accumulator error `accR` = one product error and two
+more roundings per row; `fft64_vmp_acc_growth` bounds it by `R·(1+u)^R·(EP + u·R·AP)`) -/
+theorem fft64_vmp_exact (K : Nat) (hK : 2 ≤ K) (omg iomg : Array Nat) (τ Ma Mb : ℝ) (rows : List (Poly × Poly))
+    (hacc : TableAccurate τ K omg iomg)
+    (hlen : ∀ r ∈ rows, r.1.length = 2 ^ (K + 1) ∧ r.2.length = 2 ^ (K + 1))
+    (hM : ∀ r ∈ rows, (∀ c ∈ r.1, c.natAbs < 2 ^ 53 ∧ |(c:ℝ)| ≤ Ma) ∧ (∀ c ∈ r.2, c.natAbs < 2 ^ 53 ∧ |(c:ℝ)| ≤ Mb))
+    (hdom : VmpDomain K rows.length τ Ma Mb) :
+    vmpApply K omg iomg rows = .ok (Hal.sumPolys (2 ^ (K + 1)) (rows.map (fun r => Hal.negMul r.1 r.2))) := by
+  have h8 : ¬ (2 * 2 ^ K < 8) := by
+    have : 2 ^ 2 ≤ 2 ^ K := Nat.pow_le_pow_right (by norm_num) hK
+    omega
+  unfold vmpApply
+  rw [if_neg h8, vmp_pipeline_exact K omg iomg τ Ma Mb rows hacc hlen hM hdom]
+
+/-- the entry assertion of `vmp_prepare_core` (`n >= 8`) is an outcome of the model, not a default -/
+theorem fft64_vmp_small_n_panics (K : Nat) (hK : K < 2) (omg iomg : Array Nat) (rows : List (Poly × Poly)) :
+    vmpApply K omg iomg rows = .panic "assert" := by
+  have : 2 * 2 ^ K < 8 := by interval_cases K <;> norm_num
+  unfold vmpApply; rw [if_pos this]
+
+theorem fft64_vmp_acc_growth (ep ap : ℝ) (hep : 0 ≤ ep) (hap : 0 ≤ ap) (R r : Nat) (hr : r ≤ R) :
+    (accIter ep ap r (0, 0)).1 ≤ r * (1 + u) ^ r * (ep + u * R * ap) ∧ (accIter ep ap r (0, 0)).2 = r * ap :=
+  accIter_fst_le ep ap hep hap R r hr
+
+/-- the vmp domain is decidable by evaluation and inhabited: `n = 8`, 3 rows, operands below `2^12` -/
+theorem fft64_vmp_domain_example : VmpDomain 2 3 τ51 4096 4096 := vmpDomain_example
+
+/-- **end to end, scalar-vector product**: what the FFT64 reference back end computes for limb `l` of `svp_apply_dft`
+is exactly what the HAL specification model says (`Hal.svpApplyCol`: `negMul p limb`) — the exact-integer model the
+`hal` tie compares all four back ends with -/
+theorem fft64_svp_matches_spec (K : Nat) (omg iomg : Array Nat) (τ Ma Mb : ℝ) (hacc : TableAccurate τ K omg iomg)
+    (rs : Nat) (p : Poly) (b : Col) (l : Nat) (hl : l < rs) (hlb : l < b.length) (d : Poly)
+    (hp : p.length = 2 ^ (K + 1)) (hb : (limbOr0 (2 ^ (K + 1)) b l).length = 2 ^ (K + 1))
+    (hpM : ∀ c ∈ p, c.natAbs < 2 ^ 53 ∧ |(c:ℝ)| ≤ Ma) (hxM : ∀ c ∈ limbOr0 (2 ^ (K + 1)) b l, c.natAbs < 2 ^ 53 ∧ |(c:ℝ)| ≤ Mb)
+    (hdom : SvpDomain K τ Ma Mb) :
+    Fft64.svpPipeline K omg iomg p (limbOr0 (2 ^ (K + 1)) b l) = (svpApplyCol (2 ^ (K + 1)) rs p b).getD l d := by
+  rw [svp_limbwise (2 ^ (K + 1)) rs p b l hl d, if_pos hlb]
+  exact fft64_pipeline_exact K omg iomg τ Ma Mb p _ hacc hp hb hpM hxM hdom
+
+/-- **end to end, vector-matrix product**: one flat output entry of `Hal.vmpFlat` (`limb_offset = 0`) is exactly what
+the FFT64 vmp pipeline computes from the rows `(input limb, matrix entry)` -/
+theorem fft64_vmp_matches_spec (K : Nat) (hK : 2 ≤ K) (omg iomg : Array Nat) (τ Ma Mb : ℝ) (hacc : TableAccurate τ K omg iomg)
+    (a : List Poly) (m : PMat) (rl r : Nat) (hr : r < rl) (hc : r < m.colsOut * m.size) (d : Poly)
+    (hlen : ∀ i, i < min (m.colsIn * m.rows) a.length →
+      (a.getD i (zeroP (2 ^ (K + 1)))).length = 2 ^ (K + 1) ∧ (m.entry i r).length = 2 ^ (K + 1))
+    (hM : ∀ i, i < min (m.colsIn * m.rows) a.length →
+      (∀ c ∈ a.getD i (zeroP (2 ^ (K + 1))), c.natAbs < 2 ^ 53 ∧ |(c:ℝ)| ≤ Ma) ∧ (∀ c ∈ m.entry i r, c.natAbs < 2 ^ 53 ∧ |(c:ℝ)| ≤ Mb))
+    (hdom : VmpDomain K (min (m.colsIn * m.rows) a.length) τ Ma Mb) :
+    vmpApply K omg iomg ((List.range (min (m.colsIn * m.rows) a.length)).map (fun i => (a.getD i (zeroP (2 ^ (K + 1))), m.entry i r))) =
+      .ok ((vmpFlat (2 ^ (K + 1)) a m 0 rl).getD r d) := by
+  have e : (vmpFlat (2 ^ (K + 1)) a m 0 rl).getD r d =
+      sumPolys (2 ^ (K + 1)) (((List.range (min (m.colsIn * m.rows) a.length)).map (fun i => (a.getD i (zeroP (2 ^ (K + 1))), m.entry i r))).map
+        (fun r => negMul r.1 r.2)) := by
+    rw [vmp_entry (2 ^ (K + 1)) a m 0 rl r hr d]
+    have h1 : 0 * m.colsOut < min (m.colsOut * m.size) (rl + 0 * m.colsOut) ∧
+        r < min (m.colsOut * m.size) (rl + 0 * m.colsOut) - 0 * m.colsOut := by
+      simp only [Nat.zero_mul, Nat.add_zero, Nat.sub_zero]; omega
+    rw [if_pos h1, List.map_map]
+    congr 1
+    apply List.map_congr_left
+    intro i _
+    simp only [Function.comp, Nat.zero_mul, Nat.add_zero]
+  rw [e]
+  apply fft64_vmp_exact K hK omg iomg τ Ma Mb _ hacc
+  · intro r' hr'
+    simp only [List.mem_map, List.mem_range] at hr'
+    obtain ⟨i, hi, rfl⟩ := hr'
+    exact hlen i hi
+  · intro r' hr'
+    simp only [List.mem_map, List.mem_range] at hr'
+    obtain ⟨i, hi, rfl⟩ := hr'
+    exact hM i hi
+  · simpa using hdom
+
+/- FULL STATEMENT (not proved): closed form / numeric table of `VmpDomain` for every `rows` and `n ≤ 2^16` in the style of
+   `fft64_domain_numeric` (the predicate itself is explicit and evaluated per instance, e.g. `fft64_vmp_domain_example`);
+   the ℓ2 (Parseval) refinement of the a-priori bound, which would
+   replace one factor `n` by `√n`; the convolution (`cnv_*`) path; the AVX2/FMA kernels of FFT64Avx. -/
+
+/-! non-vacuity: `n = 4` with the crate's real tables — no hypothesis left unchecked; and the model evaluated by the kernel -/
+example : svpPipeline 1 omg2 iomg2 [1000000, -2000000, 3000000, 4194303] [4194303, -1, 7, -4000000] =
+    Hal.negMul [1000000, -2000000, 3000000, 4194303] [4194303, -1, 7, -4000000] :=
+  fft64_pipeline_exact_numeric 1 (by norm_num) omg2 iomg2 fft64_table_accurate_m2 _ _ rfl rfl (2 ^ 22) (2 ^ 22) (by norm_num) (by norm_num)
+    (by decide) (by decide) (by decide)
+example : svpPipeline 1 omg2 iomg2 [1000000, -2000000, 3000000, 4194303] [4194303, -1, 7, -4000000] =
+    [-3805713805697, 3611363639879, 29360130000000, 13592160655809] := by decide +kernel
+/-- the vmp model on the crate's real `m = 4` tables (dumped by `pvh fft64 tab k=2`), 3 rows, evaluated by the kernel:
+equal to the exact sum of products, as `fft64_vmp_exact` predicts inside `fft64_vmp_domain_example` -/
+example :
+    vmpPipeline 2 #[4604544271217802189, 4604544271217802188, 4606496786581982534, 4600565431771507043, 0, 0, 0, 0]
+      #[4606496786581982534, 13823937468626282851, 4604544271217802189, 13827916308072577996, 0, 0, 0, 0]
+      [([4095, -4095, 1, 0, 7, -9, 1000, 4095], [1, 2, 3, 4, 5, 6, 7, -4095]),
+       ([-5, 4095, 0, 0, 0, 0, 0, 1], [4095, 4095, 4095, 4095, 4095, 4095, 4095, 4095]),
+       ([1, 1, 1, 1, 1, 1, 1, 1], [-4095, 4095, -4095, 4095, -4095, 4095, -4095, 4095])] =
+    Hal.sumPolys 8 [Hal.negMul [4095, -4095, 1, 0, 7, -9, 1000, 4095] [1, 2, 3, 4, 5, 6, 7, -4095],
+      Hal.negMul [-5, 4095, 0, 0, 0, 0, 0, 1] [4095, 4095, 4095, 4095, 4095, 4095, 4095, 4095],
+      Hal.negMul [1, 1, 1, 1, 1, 1, 1, 1] [-4095, 4095, -4095, 4095, -4095, 4095, -4095, 4095]] := by decide +kernel
+example : vmpApply 1 #[] #[] [([1, 2, 3, 4], [1, 2, 3, 4])] = .panic "assert" := fft64_vmp_small_n_panics 1 (by norm_num) _ _ _
+example : SvpDomain 9 τ51 (2 ^ 12) (2 ^ 13) := fft64_domain_numeric 9 (by norm_num) _ _ (by norm_num) (by norm_num) (by unfold domBits; norm_num)
+/-- the exact network on a concrete vector: `m = 1` is the identity, and `invE ∘ fwdE = 2^k` is not vacuous -/
+example : invE 1 (1 / 4) (fwdE 1 (1 / 4) [1, I]) = [2, 2 * I] := by
+  rw [fft64_exact_inverse 1 (1 / 4) [1, I] rfl]; simp
+/-- the butterfly lemma on concrete doubles: `a = 3 + 4i`, `b = 1 − 2i`, exact twiddle `1` (table entry `(1.0, +0.0)`) -/
+example : ‖cval (bflyFwd ⟨0x3FF0000000000000, 0, false⟩ (0x4008000000000000, 0x4010000000000000) (0x3FF0000000000000, 0xC000000000000000)).1
+    - (cval (0x4008000000000000, 0x4010000000000000) + 1 * cval (0x3FF0000000000000, 0xC000000000000000))‖ ≤ γf 0 * 8 := by
+  have f1 : Fin64 0x3FF0000000000000 := ⟨⟨false, 2 ^ 52, -52⟩, by decide +kernel⟩
+  have f0 : Fin64 0 := ⟨⟨false, 0, -1074⟩, by decide +kernel⟩
+  have f3 : Fin64 0x4008000000000000 := ⟨⟨false, 3 * 2 ^ 51, -51⟩, by decide +kernel⟩
+  have f4 : Fin64 0x4010000000000000 := ⟨⟨false, 2 ^ 52, -50⟩, by decide +kernel⟩
+  have fm2 : Fin64 0xC000000000000000 := ⟨⟨true, 2 ^ 52, -51⟩, by decide +kernel⟩
+  have v : ∀ (b : Nat) (d : Dy), decode b = some d → val b = d.val := fun _ _ h => val_of_decode h
+  have v1 : val 0x3FF0000000000000 = 1 := by
+    rw [v _ ⟨false, 2 ^ 52, -52⟩ (by decide +kernel)]; unfold Dy.val; simp only [Bool.false_eq_true, if_false, one_mul]; rw [zpow_neg]; norm_num
+  have v0 : val 0 = 0 := by rw [v _ ⟨false, 0, -1074⟩ (by decide +kernel)]; simp [Dy.val]
+  have v3 : val 0x4008000000000000 = 3 := by
+    rw [v _ ⟨false, 3 * 2 ^ 51, -51⟩ (by decide +kernel)]; unfold Dy.val; simp only [Bool.false_eq_true, if_false, one_mul]; rw [zpow_neg]; norm_num
+  have v4 : val 0x4010000000000000 = 4 := by
+    rw [v _ ⟨false, 2 ^ 52, -50⟩ (by decide +kernel)]; unfold Dy.val; simp only [Bool.false_eq_true, if_false, one_mul]; rw [zpow_neg]; norm_num
+  have vm2 : val 0xC000000000000000 = -2 := by
+    rw [v _ ⟨true, 2 ^ 52, -51⟩ (by decide +kernel)]; unfold Dy.val; simp only [if_true]; rw [zpow_neg]; norm_num
+  have hn : ∀ x y : ℝ, |x| ≤ 4 → |y| ≤ 4 → ‖(⟨x, y⟩ : ℂ)‖ ≤ 8 := by
+    intro x y hx hy; have := norm_le_of_comp_abs ⟨x, y⟩ 4 (by norm_num) hx hy; linarith
+  refine (fft64_butterfly_error ⟨0x3FF0000000000000, 0, false⟩ _ _ 1 0 8 ⟨f1, f0⟩ ⟨f3, f4⟩ ⟨f1, fm2⟩ (by simp) ?_ (by norm_num) ?_ ?_
+    (by norm_num) ?_).2.2.1
+  · have : twC ⟨0x3FF0000000000000, 0, false⟩ = 1 := by
+      apply Complex.ext <;> simp [twC, cval, v1, v0]
+    rw [this]; simp
+  · exact hn _ _ (by rw [v3]; norm_num) (by rw [v4]; norm_num)
+  · exact hn _ _ (by rw [v1]; norm_num) (by rw [vm2]; norm_num)
+  · calc (8:ℝ) = 2 ^ (3:Int) := by norm_num
+      _ ≤ (2:ℝ) ^ (999:Int) := two_pow_le _ _ (by norm_num)
 
 end C07
